@@ -386,3 +386,53 @@ Proof.
   intros g p c new old Sn F U. split; [apply rename_back; assumption|].
   intros pth n l W. eapply ren_path_back; eauto.
 Qed.
+
+(* ---------- `functional` is an invariant of the table's constructors ---------- *)
+Lemma functional_nil : functional [].
+Proof. intros e1 e2 []. Qed.
+
+(* add_symbol / ensure_index call insert only after the lookup of that identifier in that node failed *)
+Lemma insert_functional : forall g parent_nx id new_nx,
+  functional g -> child g parent_nx id = None -> functional (insert g parent_nx id new_nx).
+Proof.
+  intros g pn id nn F C e1 e2 I1 I2 Hs Hl. unfold insert in *.
+  assert (No : forall e, In e g -> e_src e = pn -> e_lbl e = id -> False).
+  { intros e I S L. unfold child in C. destruct (find _ g) eqn:Fi; [discriminate|].
+    pose proof (find_none _ _ Fi _ I) as H. cbn in H. rewrite S, L, Nat.eqb_refl, ident_eqb_refl in H. discriminate. }
+  destruct I1 as [<-|I1]; destruct I2 as [<-|I2]; cbn in *.
+  - reflexivity.
+  - exfalso. eapply No; eauto.
+  - exfalso. eapply No; eauto.
+  - apply F; assumption.
+Qed.
+
+Lemma export_functional : forall g to_export_nx new_nx new_id g',
+  functional g -> export g to_export_nx new_nx new_id = Some g' -> functional g'.
+Proof.
+  intros g x n id g' F E. unfold export in E.
+  destruct (existsb _ g) eqn:Ex; [discriminate|]. inversion E; subst g'; clear E.
+  assert (Same : forall e, In e g -> e_src e = n -> e_lbl e = id -> e_dst e = x).
+  { intros e I S L. destruct (Nat.eq_dec (e_dst e) x) as [|NE]; [assumption|]. exfalso.
+    assert (existsb (fun e => Nat.eqb (e_src e) n && negb (Nat.eqb (e_dst e) x) && ident_eqb (e_lbl e) id) g = true); [|congruence].
+    apply existsb_exists. exists e. split; [assumption|]. rewrite S, L, Nat.eqb_refl, ident_eqb_refl.
+    apply Nat.eqb_neq in NE. rewrite NE. reflexivity. }
+  intros e1 e2 I1 I2 Hs Hl. destruct I1 as [<-|I1]; destruct I2 as [<-|I2]; cbn in *.
+  - reflexivity.
+  - symmetry. apply Same; auto.
+  - apply Same; auto.
+  - apply F; assumption.
+Qed.
+
+Lemma remove_functional : forall g nx, functional g -> functional (remove g nx).
+Proof.
+  intros g nx F e1 e2 I1 I2. unfold remove in *. apply filter_In in I1 as [I1 _]. apply filter_In in I2 as [I2 _]. apply F; assumption.
+Qed.
+
+Lemma functional_invariant :
+  functional [] /\
+  (forall g parent_nx id new_nx, functional g -> child g parent_nx id = None -> functional (insert g parent_nx id new_nx)) /\
+  (forall g to_export_nx new_nx new_id g', functional g -> export g to_export_nx new_nx new_id = Some g' -> functional g') /\
+  (forall g nx, functional g -> functional (remove g nx)).
+Proof.
+  split; [exact functional_nil|]. split; [exact insert_functional|]. split; [exact export_functional|exact remove_functional].
+Qed.
